@@ -462,7 +462,7 @@ func TestSafety(t *testing.T) {
 				}
 			case 4:
 				ex := rapid.SampledFrom(rePatterns).Draw(t, "regexp")
-				repl := "~re"
+				repl := rapid.SampledFrom([]string{"~re", "~re", "/abs/re/"}).Draw(t, "regexpReplacement") // an absolute one too: the result is not to be made relative afterwards
 				if len(regexps) > 1 && rapid.IntRange(0, 2).Draw(t, "sameExpressionAgain") == 0 {
 					// the same expression registered a second time (by another part of the program), with a replacement of
 					// its own: removing one registration leaves the other in force
@@ -474,7 +474,7 @@ func TestSafety(t *testing.T) {
 				regexps = append(regexps, ex)
 				reRepls = append(reRepls, repl)
 				hist = append(hist, fmt.Sprintf("AddKnownPathRegexpMapping(%q,%q)", ex, repl))
-				if repl == "~re" && ex != rePatterns[0] && rapid.IntRange(0, 2).Draw(t, "twiceThenRemovedOnce") == 0 {
+				if ex != rePatterns[0] && rapid.IntRange(0, 2).Draw(t, "twiceThenRemovedOnce") == 0 {
 					// two parts of a program register the expression, one of them withdraws its registration
 					slog.AddKnownPathRegexpMapping(ex, "~r2")
 					regexps = append(regexps, ex)
